@@ -18,23 +18,27 @@
    event level    (Proofs/EditSim*.v) a relational reading of the whole block parser: token streams
                  with the same kinds token by token ([ksim]: positions free, comment and newline
                  texts free) give [proj]-equal events - every parser function, one block, the
-                 block loop, a document.  Hence, at DOCUMENT level, for every source:
-                 [C17_crlf_events] (CRLF conversion, with or without front matter: the first
-                 conjunct of [C17_full_statement]) and [C17_extra_line_events] (a blank or
-                 comment-only line between blocks, sources without front matter: its last
-                 conjunct).  For inserted comments ([tsim]/[esim], not one-to-one): step blocks
-                 without component markers ([C17_text_block_blind]), the metadata line and the
-                 section line (see below).
+                 block loop, a document.  Hence, at DOCUMENT level ([C17_edit_invariant_partial]):
+                 CRLF conversion of every source without backslash / lone CR, with or without a
+                 front matter (the first conjunct of [C17_full_statement]), and a blank or
+                 comment-only line at any place between blocks, with or without a front matter
+                 (its last conjunct; the inserted line must not be the comment "---").
+                 For inserted comments and the trailing ` --c` (not one-to-one on tokens), at
+                 BLOCK level: the metadata line, the section line, step blocks without component
+                 markers and paragraph blocks ([esim]: a comment after any word, blanks and
+                 comments appended at the end of the block).
 
-   NOT proved: the event-level invariance for a block comment inserted inside a block that
-   contains components (name, alias, note positions) and for the trailing ` --c` inside step
-   blocks; extra lines in a source WITH front matter.  These are decided on every run by the
-   metamorphic monitor of checks/c17.py on the implementation, the model being held to the
-   implementation on the edited texts by the L-lex/L-ev correspondence. *)
+   NOT proved: the event-level invariance of a block comment or a trailing comment inside a
+   step block that contains components (name, alias, note positions; `@salt[-c-] and`), and the
+   passage from the block-level [esim] theorems to documents (block splitting under [esim]).
+   These are decided on every run by the metamorphic monitor of checks/c17.py on the
+   implementation, the model being held to the implementation on the edited texts by the
+   L-lex/L-ev correspondence. *)
 From Coq Require Import Permutation.
 From CL Require Import Base.StrLemmas Model.Lexer Model.PText Model.CommentMask Model.Parser Model.Edits
   Proofs.LexerProofs Proofs.MaskProofs Proofs.MaskGen Proofs.EditProofs Proofs.EditParserProofs Proofs.EditLink
-  Proofs.ParserTotal Proofs.EditSimDefs Proofs.EditSimBlock Proofs.EditSimDoc Proofs.EditSimAll Proofs.EditSimCrlf Proofs.EditSimText Gen.CharClass.
+  Proofs.ParserTotal Proofs.EditSimDefs Proofs.EditSimBlock Proofs.EditSimDoc Proofs.EditSimAll Proofs.EditSimCrlf Proofs.EditSimText Proofs.EditSimExtra Gen.CharClass.
+From CL Require Proofs.EditSimLine.
 
 (* ---------------------------------------------------------------- lexer level *)
 
@@ -319,7 +323,7 @@ Theorem C17_step_text_blind :
 Proof. exact step_text_blind. Qed.
 Print Assumptions C17_step_text_blind.
 
-Theorem C17_text_block_blind :
+Theorem C17_plain_step_block_tsim :
   forall cfg old x1 r1 x2 r2 evs1 evs2,
     plain_start (kind x1) = true -> kind x1 = kind x2 ->
     forallb (fun t => is_empty_tok (kind t)) (x1 :: r1) = false ->
@@ -329,7 +333,92 @@ Theorem C17_text_block_blind :
     Forall2 erel evs1 evs2 ->
     OR (Forall2 erel) (run_block (x1 :: r1) evs1 (parse_block cfg old)) (run_block (x2 :: r2) evs2 (parse_block cfg old)).
 Proof. exact text_block_blind. Qed.
-Print Assumptions C17_text_block_blind.
+Print Assumptions C17_plain_step_block_tsim.
+
+(* inserted comments and appended blanks: the one-sided edit relation [esim] of
+   Proofs/EditSimLine.v (left = source, right = edited): tokens correspond, except that the edited
+   side may have a comment token directly after a word token, and a run of comments and blanks
+   at the very end of the block (the trailing ` --c`).  [st0 b evs] = parser state at the start
+   of block [b]; [erelw] = [erel], or two text events whose texts are equal after trimming. *)
+Theorem C17_metadata_entry_blind :
+  forall cfg m1 r1 m2 r2 evs1 evs2 o1 s1 o2 s2,
+    kind m1 = KMeta -> kind m2 = KMeta -> EditSimLine.esim KMeta r1 r2 ->
+    EditSimLine.ne_toks r1 -> EditSimLine.ne_toks r2 -> EditSimLine.nl_toks r1 -> EditSimLine.nl_toks r2 ->
+    Forall2 erel evs1 evs2 ->
+    metadata_entry cfg (EditSimLine.st0 (m1 :: r1) evs1) = Done (o1, s1) ->
+    metadata_entry cfg (EditSimLine.st0 (m2 :: r2) evs2) = Done (o2, s2) ->
+    orel EditSimLine.meta_rel o1 o2 /\ Forall2 erel (b_evs s1) (b_evs s2)
+    /\ (o1 <> None -> b_rest s1 = [] /\ b_rest s2 = [])
+    /\ (o1 = None <-> position EditSimLine.is_colon r1 = None).
+Proof. exact EditSimLine.metadata_entry_blind. Qed.
+Print Assumptions C17_metadata_entry_blind.
+
+Theorem C17_metadata_block_blind :
+  forall cfg m1 r1 m2 r2 evs1 evs2 l1 l2,
+    kind m1 = KMeta -> kind m2 = KMeta -> EditSimLine.esim KMeta r1 r2 ->
+    EditSimLine.ne_toks r1 -> EditSimLine.ne_toks r2 -> EditSimLine.nl_toks r1 -> EditSimLine.nl_toks r2 ->
+    Forall2 erel evs1 evs2 -> position EditSimLine.is_colon r1 <> None ->
+    run_block (m1 :: r1) evs1 (parse_block cfg true) = Done l1 ->
+    run_block (m2 :: r2) evs2 (parse_block cfg true) = Done l2 -> Forall2 erel l1 l2.
+Proof. exact EditSimLine.metadata_block_blind. Qed.
+Print Assumptions C17_metadata_block_blind.
+
+Theorem C17_section_blind :
+  forall cfg e1 r1 e2 r2 evs1 evs2 o1 s1 o2 s2,
+    kind e1 = KEq -> kind e2 = KEq -> EditSimLine.esim KEq r1 r2 ->
+    EditSimLine.ne_toks r1 -> EditSimLine.ne_toks r2 -> EditSimLine.nl_toks r1 -> EditSimLine.nl_toks r2 ->
+    Forall2 erel evs1 evs2 ->
+    section_p cfg (EditSimLine.st0 (e1 :: r1) evs1) = Done (o1, s1) ->
+    section_p cfg (EditSimLine.st0 (e2 :: r2) evs2) = Done (o2, s2) ->
+    orel erel o1 o2 /\ Forall2 erel (b_evs s1) (b_evs s2)
+    /\ (b_rest s1 = [] <-> b_rest s2 = []) /\ (o1 <> None -> b_rest s1 = [] /\ b_rest s2 = []).
+Proof. exact EditSimLine.section_blind. Qed.
+Print Assumptions C17_section_blind.
+
+Theorem C17_section_block_blind :
+  forall cfg old e1 r1 e2 r2 evs1 evs2 l1 l2,
+    kind e1 = KEq -> kind e2 = KEq -> EditSimLine.esim KEq r1 r2 ->
+    EditSimLine.ne_toks r1 -> EditSimLine.ne_toks r2 -> EditSimLine.nl_toks r1 -> EditSimLine.nl_toks r2 ->
+    Forall2 erel evs1 evs2 ->
+    (forall s, section_p cfg (EditSimLine.st0 (e1 :: r1) evs1) <> Done (None, s)) ->
+    run_block (e1 :: r1) evs1 (parse_block cfg old) = Done l1 ->
+    run_block (e2 :: r2) evs2 (parse_block cfg old) = Done l2 -> Forall2 erel l1 l2.
+Proof. exact EditSimLine.section_block_blind. Qed.
+Print Assumptions C17_section_block_blind.
+
+(* a step block without component markers, and a paragraph block (`> ...`, any number of lines):
+   step and paragraph text up to the appended blanks *)
+Theorem C17_plain_step_block_blind :
+  forall cfg old b1 b2 evs1 evs2 l1 l2,
+    EditSimLine.esim KEof b1 b2 ->
+    (exists t q, b1 = t :: q /\ EditSimLine.plain_head (kind t)) ->
+    EditSimLine.no_marker b1 ->
+    EditSimLine.ne_toks b1 -> EditSimLine.ne_toks b2 -> EditSimLine.nl_toks b1 -> EditSimLine.nl_toks b2 ->
+    Forall EditSimLine.esc_ok b1 ->
+    Forall2 EditSimLine.erelw evs1 evs2 ->
+    run_block b1 evs1 (parse_block cfg old) = Done l1 ->
+    run_block b2 evs2 (parse_block cfg old) = Done l2 -> Forall2 EditSimLine.erelw l1 l2.
+Proof. exact EditSimLine.plain_step_block_blind. Qed.
+Print Assumptions C17_plain_step_block_blind.
+
+Theorem C17_paragraph_block_blind :
+  forall cfg old b1 b2 evs1 evs2 l1 l2,
+    EditSimLine.esim KEof b1 b2 ->
+    (exists t q, b1 = t :: q /\ kind t = KTextStep) ->
+    EditSimLine.ne_toks b1 -> EditSimLine.ne_toks b2 -> EditSimLine.nl_toks b1 -> EditSimLine.nl_toks b2 ->
+    Forall2 EditSimLine.erelw evs1 evs2 ->
+    run_block b1 evs1 (parse_block cfg old) = Done l1 ->
+    run_block b2 evs2 (parse_block cfg old) = Done l2 -> Forall2 EditSimLine.erelw l1 l2.
+Proof. exact EditSimLine.text_block_blind. Qed.
+Print Assumptions C17_paragraph_block_blind.
+
+(* the two token-level edits are instances of [esim] *)
+Theorem C17_edits_are_esim :
+  (forall tl p ta w tb cm n, kind w = KWord -> is_comment (kind cm) = true ->
+     EditSimLine.esimb tl p (ta ++ w :: tb) (ta ++ w :: cm :: shift n tb))
+  /\ (forall p ts suffix, Forall EditSimLine.tail_tok suffix -> EditSimLine.esim p ts (ts ++ suffix)).
+Proof. split; [exact EditSimLine.esim_insert_after_word | exact EditSimLine.esim_append_tail]. Qed.
+Print Assumptions C17_edits_are_esim.
 
 Lemma same_events_equiv e1 e2 : same_events e1 e2 -> ev_equiv (Done e1) (Done e2).
 Proof.
@@ -358,21 +447,65 @@ Qed.
 Print Assumptions C17_crlf_events.
 
 (* document level, a blank or comment-only line [l] between blocks: the last conjunct of
-   [C17_full_statement] for sources without a front matter.  The second front-matter hypothesis is
-   needed: the comment-only line "---" is a YAML fence. *)
+   [C17_full_statement].  The hypothesis on [l] is needed: the comment-only line "---" is a YAML
+   fence (two of them at the top of a source make a front matter). *)
 Theorem C17_extra_line_events :
   forall cfg a l b ta tl tb,
     p_strict_escape cfg = false ->
-    parse_frontmatter cfg (a ++ b) = None -> parse_frontmatter cfg (a ++ l ++ b) = None ->
+    parse_frontmatter cfg (a ++ b) = None ->
+    Forall (fun x => is_fence x = false) (lines_inclusive l) ->
     lex_at U a 0 = Some ta -> lex_at U l 0 = Some tl -> lex_at U b (blen a) = Some tb ->
     (ta = [] \/ exists p nl, ta = p ++ [nl] /\ kind nl = KNewline) -> blank_line tl ->
     reach (ta ++ tb) tb ->
     ev_equiv (events U cfg (a ++ l ++ b)) (events U cfg (a ++ b)).
 Proof.
-  intros cfg a l b ta tl tb Hc F1 F2 La Ll Lb Hta Hl Hr. apply OR_same_equiv; [exact Hc|].
-  apply (extra_line_events_all cfg U gen_special_breaks gen_eol_breaks a l b ta tl tb); assumption.
+  intros cfg a l b ta tl tb Hc F1 Hf La Ll Lb Hta Hl Hr. apply OR_same_equiv; [exact Hc|].
+  apply (extra_line_none U cfg gen_special_breaks gen_eol_breaks a l b ta tl tb); assumption.
 Qed.
 Print Assumptions C17_extra_line_events.
+
+(* ... and below a front matter, whose Cooklang part is [a ++ b] (any inserted line: what follows
+   the second fence is never looked at by the splitter) *)
+Theorem C17_extra_line_events_fm :
+  forall cfg s fm a l b ta tl tb,
+    p_strict_escape cfg = false ->
+    parse_frontmatter cfg s = Some fm -> cook_text fm = a ++ b -> a ++ b <> [] ->
+    lex_at U a (cook_off fm) = Some ta -> lex_at U l 0 = Some tl -> lex_at U b (cook_off fm + blen a) = Some tb ->
+    (ta = [] \/ exists p nl, ta = p ++ [nl] /\ kind nl = KNewline) -> blank_line tl ->
+    reach (ta ++ tb) tb ->
+    ev_equiv (events U cfg (take_bytes s (cook_off fm) ++ a ++ l ++ b)) (events U cfg s).
+Proof.
+  intros cfg s fm a l b ta tl tb Hc F C Hne La Ll Lb Hta Hl Hr. apply OR_same_equiv; [exact Hc|].
+  apply (extra_line_some U cfg gen_special_breaks gen_eol_breaks s fm a l b ta tl tb); assumption.
+Qed.
+Print Assumptions C17_extra_line_events_fm.
+
+(* the part of [C17_full_statement] that is a theorem, at document level, in one statement *)
+Theorem C17_edit_invariant_partial :
+  forall cfg, p_strict_escape cfg = false ->
+    (forall s, no_backslash s = true -> no_lone_cr s = true ->
+       ev_equiv (events U cfg (crlf s)) (events U cfg s))
+    /\ (forall a l b ta tl tb,
+         parse_frontmatter cfg (a ++ b) = None ->
+         Forall (fun x => is_fence x = false) (lines_inclusive l) ->
+         lex_at U a 0 = Some ta -> lex_at U l 0 = Some tl -> lex_at U b (blen a) = Some tb ->
+         (ta = [] \/ exists p nl, ta = p ++ [nl] /\ kind nl = KNewline) -> blank_line tl ->
+         reach (ta ++ tb) tb ->
+         ev_equiv (events U cfg (a ++ l ++ b)) (events U cfg (a ++ b)))
+    /\ (forall s fm a l b ta tl tb,
+         parse_frontmatter cfg s = Some fm -> cook_text fm = a ++ b -> a ++ b <> [] ->
+         lex_at U a (cook_off fm) = Some ta -> lex_at U l 0 = Some tl ->
+         lex_at U b (cook_off fm + blen a) = Some tb ->
+         (ta = [] \/ exists p nl, ta = p ++ [nl] /\ kind nl = KNewline) -> blank_line tl ->
+         reach (ta ++ tb) tb ->
+         ev_equiv (events U cfg (take_bytes s (cook_off fm) ++ a ++ l ++ b)) (events U cfg s)).
+Proof.
+  intros cfg Hc. split; [|split].
+  - intros s. apply C17_crlf_events. exact Hc.
+  - intros a l b ta tl tb. apply C17_extra_line_events. exact Hc.
+  - intros s fm a l b ta tl tb. apply C17_extra_line_events_fm. exact Hc.
+Qed.
+Print Assumptions C17_edit_invariant_partial.
 
 (* the hypotheses of [C17_extra_line_events] are satisfiable: "a\n\n" | "--c\n" | "b" *)
 Example C17_extra_line_hypotheses_satisfiable :
